@@ -25,7 +25,8 @@ RULE = ('every reference-well-typed program PUSH;i1..ik (k<=3) over PUSH/PAIR n/
         'PACK/UNPACK/LEFT/RIGHT/NONE/NIL/EMPTY_MAP/LAMBDA/CAST x every valid annotation assignment (each type node one of '
         'none, %f, :t, %f :t; %f only on components of pair/or, as Tezos requires) within the bound; the annotated run is compared '
         'with the bare run of the same program.  evaluation = one program run (bare or annotated); non-trivial = distinct '
-        '(program, assignment) with at least one annotated node')
+        '(program, assignment) in which at least one annotated node is a pair node (the nodes whose annotations the comb '
+        'traversal could look at); outcome classes are per last instruction of the program')
 BOUND = {
     'quick': 'initial PUSH of: nat, right combs of 2-4 nat leaves, left-nested pair, pair of pairs, option/or/list of a 3-comb, packed 3- and '
              '4-combs; type arguments: 3-comb for LEFT/RIGHT/NONE/NIL/EMPTY_MAP/LAMBDA, 3-/4-comb for UNPACK, the current top type for CAST; '
@@ -420,17 +421,19 @@ def run_shard(spec, tier):
         r.extra['programs'] += 1
         r.extra[f'programs of length {len(prog) - 1}'] += 1
         nodes = prog_nodes(prog)
+        lastname = _iname(bare[-1])
         for a in assignments(prog, tier):
             ann = annotate(prog, nodes, a)
             classes = [nodes[ni][4] for ni, _ in a]
             r.ev()
-            r.nt(json.dumps(ann, sort_keys=True))
+            if any('pair' in c for c in classes):
+                r.nt(json.dumps(ann, sort_keys=True))
             case = {'bare': bare, 'annotated': ann, 'nodes': classes}
             ra = run_prog(ann)
             if ra == rb:
-                r.out(f'{len(a)} annotated: same ' + ('result' if ra[0] == 'ok' else f'failure at {ra[2]}'))
+                r.out(f'{lastname}: annotated run has the same ' + ('result' if ra[0] == 'ok' else f'failure at {ra[2]}'))
             else:
-                r.out(f'{len(a)} annotated: differs')
+                r.out(f'{lastname}: annotated run differs')
                 for d, detail in compare_runs(bare, ann, classes, rb, ra):
                     r.viol(d, case, detail)
             last = case
